@@ -166,8 +166,8 @@ def compare(exp, ehdr, got, ghdr, header, sig_base, sigs):
     # with a header the reader's record numbers still count the header line; with an error before any record only the error is compared
     keys.append('ragged')
     for k in keys:
-        if exp['err'] and k in ('ragged',):
-            continue
+        if exp['err'] and k in ('ragged', 'bom', 'firstdef'):
+            continue        # when reading fails (possibly inside the constructor) the warnings are not observable; the error itself is compared
         if got[k] != exp[k]:
             sigs.append(dict(sig_base, what=k, got=got[k], want=exp[k]))
             return
